@@ -15,6 +15,10 @@ import (
 type ConfCase struct {
 	Ops   []Op
 	Empty bool // the exported directory is empty (so that removing the root would succeed at the OS level)
+	// FileRoot: the export is one regular file (ufs serves it as the attach point)
+	FileRoot bool `json:",omitempty"`
+	// EmptyRootArg: the server is created with root "" and the export as working directory
+	EmptyRootArg bool `json:",omitempty"`
 }
 
 const sentinel = "SENTINEL-OUTSIDE-THE-EXPORT"
@@ -77,8 +81,12 @@ func genConfOp(t *rapid.T) Op {
 		if rapid.IntRange(0, 3).Draw(t, "up") == 0 {
 			op.Name = harn.B(rapid.SampledFrom(upNames).Draw(t, "upname"))
 		}
+	case "attach":
+		if rapid.Bool().Draw(t, "aname") {
+			op.Name = genName(t) // the attach name: a server may ignore it, it must not let it select anything outside
+		}
 	case "open":
-		op.Mode = rapid.SampledFrom([]uint8{0, 1, 2, 0x11}).Draw(t, "mode")
+		op.Mode = rapid.SampledFrom([]uint8{0, 1, 2, 0x11, 0x40, 0x41, 0x42, 0x50}).Draw(t, "mode")
 	case "read":
 		op.Count = 4096
 		op.Offset = rapid.SampledFrom([]int64{0, 1, -1, 1 << 40}).Draw(t, "off")
@@ -114,6 +122,13 @@ func GenConf(t *rapid.T) ConfCase {
 	c.Empty = rapid.IntRange(0, 4).Draw(t, "empty") == 0
 	if c.Empty {
 		c.Ops = []Op{{Kind: "attach", Fid: 0}, {Kind: "walk", Fid: 0, Newfid: 5}}
+	}
+	switch rapid.IntRange(0, 11).Draw(t, "rootkind") {
+	case 0:
+		c.FileRoot, c.Empty = true, false
+		c.Ops = []Op{{Kind: "attach", Fid: 0}, {Kind: "walk", Fid: 0, Newfid: 5}, {Kind: "open", Fid: 5, Mode: rapid.SampledFrom([]uint8{0x40, 0x41, 0x42, 0}).Draw(t, "frmode")}, {Kind: "clunk", Fid: 5}}
+	case 1:
+		c.EmptyRootArg = true
 	}
 	max := 30
 	if harn.Thorough() {
@@ -165,7 +180,7 @@ func inoOf(p string) (uint64, bool) {
 }
 
 func RunConf(c ConfCase) harn.Result {
-	w, err := newWorld(func(top string) error {
+	w, err := newWorldOpt(func(top string) error {
 		if err := os.WriteFile(filepath.Join(top, "outside.txt"), []byte(sentinel), 0644); err != nil {
 			return err
 		}
@@ -186,8 +201,16 @@ func RunConf(c ConfCase) harn.Result {
 				return err
 			}
 		}
+		if c.FileRoot {
+			if err := os.RemoveAll(filepath.Join(top, "export")); err != nil {
+				return err
+			}
+			if err := os.WriteFile(filepath.Join(top, "export"), []byte("the one exported file"), 0644); err != nil {
+				return err
+			}
+		}
 		return os.MkdirAll(filepath.Join(top, "other", "etc"), 0755)
-	})
+	}, c.EmptyRootArg)
 	if err != nil {
 		return harn.Fail("HARNESS: %v", err)
 	}
@@ -274,6 +297,9 @@ func RunConf(c ConfCase) harn.Result {
 				if v := checkQid(op, r.qid.Path, "the file"); v != "" {
 					return fail(v)
 				}
+				if op.Kind == "attach" && r.qid.Path != rootIno {
+					return fail(fmt.Sprintf("%s returned the qid of inode %d; the exported root is inode %d", op, r.qid.Path, rootIno))
+				}
 			case "fstat":
 				if v := checkQid(op, r.dir.Qid.Path, "the file"); v != "" {
 					return fail(v)
@@ -297,6 +323,12 @@ func RunConf(c ConfCase) harn.Result {
 	}
 	if c.Empty {
 		res.Classes = append(res.Classes, "empty_export")
+	}
+	if c.FileRoot {
+		res.Classes = append(res.Classes, "file_rooted_export")
+	}
+	if c.EmptyRootArg {
+		res.Classes = append(res.Classes, "server_created_with_empty_root")
 	}
 	return res
 }
